@@ -402,8 +402,59 @@ def _get(chk: Check, lt: ClassInfo) -> None:
                     for n in ast.walk(src))
     uses_builder = any(isinstance(n, ast.Call) and attr_path(n.func) == (me, "_make_interval")
                        for n in ast.walk(src))
-    chk.ob("R12.4", "LazyIntervalTree.get:rebuild-from-values", uses_vals and uses_builder, f.loc(),
-           "a rebuild must index every value of self._value_collection through self._make_interval", 2)
+    # ... and yields exactly the non-None intervals
+    yields_ok = False
+    for lp in ast.walk(src):
+        if isinstance(lp, ast.For) and attr_path(lp.iter) == (me, "_value_collection"):
+            c2 = CFG(gen.node) if gen is not None else cfg
+            ys = [y for y in ast.walk(lp) if isinstance(y, ast.Yield)]
+            if len(ys) == 1 and isinstance(ys[0].value, ast.Name):
+                iv = ys[0].value.id
+                bound = any(isinstance(a, ast.Assign) and attr_path(a.targets[0]) == (iv,)
+                            and isinstance(a.value, ast.Call) and attr_path(a.value.func) == (me, "_make_interval")
+                            for a in ast.walk(lp))
+                present: Set[int] = set()
+                for tn, i in c2.info.items():
+                    if i.kind == "test" and (
+                            (isinstance(i.ast, ast.Name) and i.ast.id == iv) or
+                            (isinstance(i.ast, ast.Compare) and attr_path(i.ast.left) == (iv,)
+                             and isinstance(i.ast.ops[0], (ast.Is, ast.IsNot)))):
+                        for b in c2.g.successors(tn):
+                            bi = c2.info[b]
+                            if bi.kind != "branch":
+                                continue
+                            if isinstance(i.ast, ast.Compare):
+                                if bi.value == isinstance(i.ast.ops[0], ast.IsNot):
+                                    present.add(b)
+                            elif bi.value:
+                                present.add(b)
+                try:
+                    yn = c2.node_of(ys[0])
+                    head = c2.by_ast[id(lp)]
+                    body_in = [s_ for s_ in c2.g.successors(head)
+                               if c2.info[s_].kind == "branch" and c2.info[s_].value]
+                    # every iteration with an interval present reaches the yield; none without
+                    reaches = all(c2.path_avoiding(b, head, {yn}) is None for b in present)
+                    guarded = bool(present) and c2.path_avoiding(body_in[0], yn, present) is None
+                    yields_ok = bound and reaches and guarded
+                except (AnalysisError, IndexError):
+                    yields_ok = False
+    chk.ob("R12.4", "LazyIntervalTree.get:rebuild-from-values", uses_vals and uses_builder and yields_ok, f.loc(),
+           "a rebuild must index every value of self._value_collection through self._make_interval, "
+           "yielding exactly the intervals that are not None", 3)
+    init0 = lt.methods.get("__init__")
+    if init0 is not None:
+        ps0 = init0.param_names()
+        stored = {attr_path(t)[1]: attr_path(n.value) for n in walk_no_nested(init0.node)
+                  if isinstance(n, (ast.Assign, ast.AnnAssign)) and n.value is not None
+                  for t in (n.targets if isinstance(n, ast.Assign) else [n.target])
+                  if attr_path(t) and len(attr_path(t)) == 2 and attr_path(t)[0] == init0.self_name}
+        ok0 = stored.get("_value_collection") == (ps0[1],) and stored.get("_make_interval") == (ps0[2],) \
+            and "_interval_events" in stored
+        chk.ob("R12.4", "LazyIntervalTree.__init__:keeps-collection-and-builder", ok0, init0.loc(),
+               "the wrapper must keep the very value collection and interval builder it was given "
+               "(no copy: a rebuild must see the collection's current members) and start with an "
+               "empty event queue", 2)
     chk.floor("R12.4", "replay loops in get()", n_replay, 1)
     # the choice between replay and rebuild may depend only on sizes
     init = lt.methods.get("__init__")
